@@ -16,7 +16,44 @@ def _lib():
     return py4hw
 
 
-def build(net, names=None):
+def make_leaf(hw, nm, k, ins, outs, p):
+    """one leaf of kind k under parent hw (constructor call only)"""
+    py4hw = _lib()
+    if k in ('And2', 'Or2', 'Sub', 'Mul', 'SignedMul', 'Div', 'Mod'):
+        o = getattr(py4hw, k)(hw, nm, ins[0], ins[1], outs[0])
+    elif k in ('Not', 'Buf', 'ZeroExtend', 'SignExtend', 'Repeat'):
+        o = getattr(py4hw, k)(hw, nm, ins[0], outs[0])
+    elif k in ('BitsLSBF', 'BitsMSBF'):
+        o = getattr(py4hw, k)(hw, nm, ins[0], outs)
+    elif k == 'Bit':
+        o = py4hw.Bit(hw, nm, ins[0], p[0], outs[0])
+    elif k == 'Range':
+        o = py4hw.Range(hw, nm, ins[0], p[0], p[1], outs[0])
+    elif k in ('ConcatenateMSBF', 'ConcatenateLSBF'):
+        o = getattr(py4hw, k)(hw, nm, ins, outs[0])
+    elif k in ('ShiftLeftConstant', 'ShiftRightConstant', 'RotateLeftConstant', 'RotateRightConstant'):
+        o = getattr(py4hw, k)(hw, nm, ins[0], p[0], outs[0])
+    elif k == 'Constant':
+        o = py4hw.Constant(hw, nm, p[0], outs[0])
+    elif k == 'Mux2':
+        o = py4hw.Mux2(hw, nm, ins[0], ins[1], ins[2], outs[0])
+    elif k == 'Reg':
+        hasE, hasR, rv = p
+        e = ins[1] if hasE else None
+        r = ins[2 if hasE else 1] if hasR else None
+        o = py4hw.Reg(hw, nm, ins[0], outs[0], enable=e, reset=r, reset_value=rv)
+    elif k == 'SynchronousMemory':
+        o = py4hw.SynchronousMemory(hw, nm, ins[0], ins[1], ins[2], outs[0], ins[3])
+    elif k == 'Sequence':
+        o = py4hw.Sequence(hw, nm, list(p[1:]), outs[0], once=bool(p[0]))
+    elif k == 'AddCarryIn':
+        o = py4hw.AddCarryIn(hw, nm, ins[0], ins[1], outs[0], ins[2])
+    else:
+        raise Unsupported('build: kind ' + k)
+    return o
+
+
+def build(net, names=None, same_names=False):
     """net = {'width': [...], 'leaves': [{'kind','ins','outs','p','dom'}], 'doms': [{'en': w}]}
     (1-based wire ids).  Returns (sys, wires) with wires[i-1] the py4hw Wire of id i.
     Leaves are instantiated in list order directly under the HWSystem."""
@@ -27,7 +64,8 @@ def build(net, names=None):
     objs = []
     drivers = [hw.clockDriver]
     for d, dm in enumerate(net.get('doms', [])[1:], start=2):
-        drivers.append(py4hw.ClockDriver('clk%d' % d, base=hw.clockDriver,
+        # name: 'same_names' gives every extra driver the name of the system clock driver (names carry no meaning)
+        drivers.append(py4hw.ClockDriver(hw.clockDriver.name if same_names else 'clk%d' % d, base=hw.clockDriver,
                                          enable=W(dm['en']) if dm['en'] else None, wire=hw.wire('clk%d' % d)))
     for b, lf in enumerate(net['leaves']):
         k = lf['kind']
@@ -35,37 +73,7 @@ def build(net, names=None):
         ins = [W(i) for i in lf['ins']]
         outs = [W(i) for i in lf['outs']]
         p = lf.get('p', [])
-        if k in ('And2', 'Or2', 'Sub', 'Mul', 'SignedMul', 'Div', 'Mod'):
-            o = getattr(py4hw, k)(hw, nm, ins[0], ins[1], outs[0])
-        elif k in ('Not', 'Buf', 'ZeroExtend', 'SignExtend', 'Repeat'):
-            o = getattr(py4hw, k)(hw, nm, ins[0], outs[0])
-        elif k in ('BitsLSBF', 'BitsMSBF'):
-            o = getattr(py4hw, k)(hw, nm, ins[0], outs)
-        elif k == 'Bit':
-            o = py4hw.Bit(hw, nm, ins[0], p[0], outs[0])
-        elif k == 'Range':
-            o = py4hw.Range(hw, nm, ins[0], p[0], p[1], outs[0])
-        elif k in ('ConcatenateMSBF', 'ConcatenateLSBF'):
-            o = getattr(py4hw, k)(hw, nm, ins, outs[0])
-        elif k in ('ShiftLeftConstant', 'ShiftRightConstant', 'RotateLeftConstant', 'RotateRightConstant'):
-            o = getattr(py4hw, k)(hw, nm, ins[0], p[0], outs[0])
-        elif k == 'Constant':
-            o = py4hw.Constant(hw, nm, p[0], outs[0])
-        elif k == 'Mux2':
-            o = py4hw.Mux2(hw, nm, ins[0], ins[1], ins[2], outs[0])
-        elif k == 'Reg':
-            hasE, hasR, rv = p
-            e = ins[1] if hasE else None
-            r = ins[2 if hasE else 1] if hasR else None
-            o = py4hw.Reg(hw, nm, ins[0], outs[0], enable=e, reset=r, reset_value=rv)
-        elif k == 'SynchronousMemory':
-            o = py4hw.SynchronousMemory(hw, nm, ins[0], ins[1], ins[2], outs[0], ins[3])
-        elif k == 'Sequence':
-            o = py4hw.Sequence(hw, nm, list(p[1:]), outs[0], once=bool(p[0]))
-        elif k == 'AddCarryIn':
-            o = py4hw.AddCarryIn(hw, nm, ins[0], ins[1], outs[0], ins[2])
-        else:
-            raise Unsupported('build: kind ' + k)
+        o = make_leaf(hw, nm, k, ins, outs, p)
         d = lf.get('dom', 0)
         if d and d > 1:
             o.clockDriver = drivers[d - 1]
